@@ -7,10 +7,10 @@ namespace StorageModel.C06
 open StorageModel
 open StorageModel.C03 (Map Id Err setInsert setErase setOf UI SI NEK uniqueAfter setAfter HeldByOther)
 
-theorem deleteA_absent {s s' : State} {id : Id} (hi : Inv s) (h : deleteA s id = .ok s') :
+theorem deleteA_absent {s s' : State} {id : Id} (hi : Inv s) (h : deleteATop s id = .ok s') :
     s'.a.lookup id = none ∧ s'.b = s.b := by
-  obtain ⟨_, c2, c3, _⟩ := core_deleteA hi.toInvCore h
-  exact ⟨by rw [c2]; simp, c3⟩
+  have p := deleteATop_spec hi.toInvCore hi.boss h
+  exact ⟨p.gone, p.b⟩
 
 theorem deleteB_absent {s s' : State} {id : Id} (h : deleteB s id = .ok s') : s'.b.lookup id = none := by
   obtain ⟨_, e, s1, _, _, _, rfl⟩ := deleteB_ok h
@@ -76,7 +76,7 @@ theorem fkAfter_frame {ic : Bool} {old new : Bytes} {id : Id} {s s' : State} (hf
 
 /-- the entity tables after a successful `A.Create` -/
 theorem createA_entity {s s' : State} {id : Id} {v : ValsA} (h : createA s id v = .ok s') :
-    s'.a = s.a.insert id ⟨v.name, v.alias, setOf v.roles, v.owner, v.dep, none⟩ ∧ s'.b = s.b := by
+    s'.a = s.a.insert id ⟨v.name, v.alias, setOf v.roles, v.owner, v.dep, v.boss, none⟩ ∧ s'.b = s.b := by
   unfold createA at h
   split at h
   · cases h
@@ -211,8 +211,19 @@ theorem depAfter_create_ok_iff {s : State} {new : Bytes} :
   · simp only [hn, not_false_eq_true, if_true, false_or]
     cases s.bEx new <;> simp
 
-/-- what decides whether `A.Create id v` is accepted: the *other* entities only -/
+theorem bossAfter_create_ok_iff {s : State} {new : Bytes} :
+    bossAfter true [] new s = .ok () ↔ (new = [] ∨ s.aEx new = true) := by
+  unfold bossAfter
+  simp only [Bool.not_true, Bool.false_and, Bool.false_eq_true, if_false, ne_eq]
+  by_cases hn : new = []
+  · simp [hn]
+  · simp only [hn, not_false_eq_true, if_true, false_or]
+    cases s.aEx new <;> simp
+
+/-- what decides whether `A.Create id v` is accepted: the *other* entities only (a `boss` may also
+    be the entity itself: it exists by the time the fk constraint looks) -/
 def AcceptableA (s : State) (id : Id) (v : ValsA) : Prop :=
+  (v.boss.getD [] = [] ∨ v.boss.getD [] = id ∨ s.aEx (v.boss.getD []) = true) ∧
   v.name ≠ [] ∧ ¬ HeldByOther (fun (e : EntA) => e.name) s.a id v.name ∧
   (v.alias.getD [] = [] ∨ ¬ HeldByOther (fun (e : EntA) => e.alias.getD []) s.a id (v.alias.getD [])) ∧
   [] ∉ setOf v.roles ∧
@@ -226,22 +237,40 @@ theorem createA_accepts_iff {s : State} {id : Id} {v : ValsA} (hi : Inv s) (hid 
     cases hgl : s.g.fwd.lookup id with
     | none => rfl
     | some l => have := hi.g.fwdDom id l hgl; simp [State.aEx, hna] at this
-  have hg1 : LinkInv s.g ({ s with hasA := true, a := s.a.insert id ⟨v.name, v.alias, setOf v.roles, v.owner, v.dep, none⟩ } : State).aEx ({ s with hasA := true, a := s.a.insert id ⟨v.name, v.alias, setOf v.roles, v.owner, v.dep, none⟩ } : State).bEx :=
+  have hg1 : LinkInv s.g ({ s with hasA := true, a := s.a.insert id ⟨v.name, v.alias, setOf v.roles, v.owner, v.dep, v.boss, none⟩ } : State).aEx ({ s with hasA := true, a := s.a.insert id ⟨v.name, v.alias, setOf v.roles, v.owner, v.dep, v.boss, none⟩ } : State).bEx :=
     hi.g.mono (aEx_insert_mono rfl) (fun _ h => h)
   have hlinks := LinkPair.setLinks_fresh_ok_iff (req := v.groups) hg1 (aEx_insert_self rfl) hg
   unfold createA AcceptableA
   simp only [hid, if_false, hna, Option.isSome_none, Bool.false_eq_true, bind, Except.bind, setGroups, pure, Except.pure]
-  cases hsl : s.g.setLinks ({ s with hasA := true, a := s.a.insert id ⟨v.name, v.alias, setOf v.roles, v.owner, v.dep, none⟩ } : State).bEx
+  cases hsl : s.g.setLinks ({ s with hasA := true, a := s.a.insert id ⟨v.name, v.alias, setOf v.roles, v.owner, v.dep, v.boss, none⟩ } : State).bEx
       id v.groups with
   | error x =>
     have hno : ¬ ∀ k, k ∈ v.groups → s.bEx k = true := by
       intro h; obtain ⟨p', hp'⟩ := hlinks.2 h; rw [hsl] at hp'; cases hp'
     simp only [false_iff, reduceCtorEq, exists_false]
-    intro h; exact hno h.2.2.2.2.1
+    intro h; exact hno h.2.2.2.2.2.1
   | ok g' =>
     have hgr : ∀ k, k ∈ v.groups → s.bEx k = true := hlinks.1 ⟨g', hsl⟩
-    simp only [afterUpdateA, Map.lookup_insert, if_true, evName, evAlias, evRoles, evOwner, evDep, Captured.none, bind,
+    simp only [afterUpdateA, Map.lookup_insert, if_true, evName, evAlias, evRoles, evOwner, evDep, evBoss, Captured.none, bind,
       Except.bind]
+    have hbx : ({ s with hasA := true, a := s.a.insert id ⟨v.name, v.alias, setOf v.roles, v.owner, v.dep, v.boss, none⟩, g := g' } : State).aEx (v.boss.getD []) = true ↔
+        (v.boss.getD [] = id ∨ s.aEx (v.boss.getD []) = true) := by
+      simp only [State.aEx, Map.lookup_insert]
+      by_cases hbi : v.boss.getD [] = id
+      · simp [hbi]
+      · simp [hbi]
+    cases hbo : bossAfter true [] (v.boss.getD []) ({ s with hasA := true, a := s.a.insert id ⟨v.name, v.alias, setOf v.roles, v.owner, v.dep, v.boss, none⟩, g := g' } : State) with
+    | error x =>
+      simp only [false_iff, reduceCtorEq, exists_false]
+      intro h
+      have : bossAfter true [] (v.boss.getD []) ({ s with hasA := true, a := s.a.insert id ⟨v.name, v.alias, setOf v.roles, v.owner, v.dep, v.boss, none⟩, g := g' } : State) = .ok () := by
+        rw [bossAfter_create_ok_iff, hbx]; exact h.1
+      rw [hbo] at this; cases this
+    | ok u =>
+    have hbacc : v.boss.getD [] = [] ∨ v.boss.getD [] = id ∨ s.aEx (v.boss.getD []) = true := by
+      have := bossAfter_create_ok_iff.1 hbo
+      rw [hbx] at this; exact this
+    simp only
     have hN := uniqueAfter_create_ok_iff (f := fun (e : EntA) => e.name) (new := v.name) (nullable := false) (id := id)
       hi.uName hna
     have hA := uniqueAfter_create_ok_iff (f := fun (e : EntA) => e.alias.getD []) (new := v.alias.getD [])
@@ -252,7 +281,7 @@ theorem createA_accepts_iff {s : State} {id : Id} {v : ValsA} (hi : Inv s) (hid 
       have : ¬ ((v.name = [] ∧ false = true) ∨ (v.name ≠ [] ∧ ¬ HeldByOther (fun (e : EntA) => e.name) s.a id v.name)) := by
         intro h; obtain ⟨i, hi'⟩ := hN.2 h; rw [hun] at hi'; cases hi'
       simp only [false_iff, reduceCtorEq, exists_false]
-      intro h; exact this (Or.inr ⟨h.1, h.2.1⟩)
+      intro h; exact this (Or.inr ⟨h.2.1, h.2.2.1⟩)
     | ok un =>
       have hn' := hN.1 ⟨un, hun⟩
       simp only
@@ -264,7 +293,7 @@ theorem createA_accepts_iff {s : State} {id : Id} {v : ValsA} (hi : Inv s) (hid 
         simp only [false_iff, reduceCtorEq, exists_false]
         intro h
         apply this
-        rcases h.2.2.1 with h1 | h1
+        rcases h.2.2.2.1 with h1 | h1
         · exact Or.inl ⟨h1, rfl⟩
         · by_cases hz : v.alias.getD [] = []
           · exact Or.inl ⟨hz, rfl⟩
@@ -277,7 +306,7 @@ theorem createA_accepts_iff {s : State} {id : Id} {v : ValsA} (hi : Inv s) (hid 
           have : ¬ [] ∉ setOf v.roles := by
             intro h; obtain ⟨i, hi'⟩ := hR.2 h; rw [hsr] at hi'; cases hi'
           simp only [false_iff, reduceCtorEq, exists_false]
-          intro h; exact this h.2.2.2.1
+          intro h; exact this h.2.2.2.2.1
         | ok sr =>
           have hr' := hR.1 ⟨sr, hsr⟩
           simp only
@@ -293,14 +322,14 @@ theorem createA_accepts_iff {s : State} {id : Id} {v : ValsA} (hi : Inv s) (hid 
             · rcases ha' with ⟨h, _⟩ | ⟨_, h⟩
               · exact Or.inl h
               · exact Or.inr h
-          cases hfk : fkAfter true [] (v.owner.getD []) id ({ s with hasA := true, a := s.a.insert id ⟨v.name, v.alias, setOf v.roles, v.owner, v.dep, none⟩, g := g', uName := un, uAlias := ua, sRoles := sr } : State) with
+          cases hfk : fkAfter true [] (v.owner.getD []) id ({ s with hasA := true, a := s.a.insert id ⟨v.name, v.alias, setOf v.roles, v.owner, v.dep, v.boss, none⟩, g := g', uName := un, uAlias := ua, sRoles := sr } : State) with
           | error x =>
             have : ¬ (v.owner.getD [] = [] ∨ s.bEx (v.owner.getD []) = true) := by
               intro h
-              obtain ⟨t, ht⟩ := (fkAfter_create_ok_iff (id := id) (s := ({ s with hasA := true, a := s.a.insert id ⟨v.name, v.alias, setOf v.roles, v.owner, v.dep, none⟩, g := g', uName := un, uAlias := ua, sRoles := sr } : State))).2 h
+              obtain ⟨t, ht⟩ := (fkAfter_create_ok_iff (id := id) (s := ({ s with hasA := true, a := s.a.insert id ⟨v.name, v.alias, setOf v.roles, v.owner, v.dep, v.boss, none⟩, g := g', uName := un, uAlias := ua, sRoles := sr } : State))).2 h
               rw [hfk] at ht; cases ht
             simp only [false_iff, reduceCtorEq, exists_false]
-            intro h; exact this h.2.2.2.2.2.1
+            intro h; exact this h.2.2.2.2.2.2.1
           | ok s1 =>
             have ho := (fkAfter_create_ok_iff (id := id)).1 ⟨s1, hfk⟩
             have hb0 := fkAfter_create_b hfk
@@ -308,12 +337,12 @@ theorem createA_accepts_iff {s : State} {id : Id} {v : ValsA} (hi : Inv s) (hid 
             simp only
             rw [depAfter_create_ok_iff, hb1]
             constructor
-            · intro hd; exact ⟨base.1, base.2.1, base.2.2, hr', hgr, ho, hd⟩
-            · intro h; exact h.2.2.2.2.2.2
+            · intro hd; exact ⟨hbacc, base.1, base.2.1, base.2.2, hr', hgr, ho, hd⟩
+            · intro h; exact h.2.2.2.2.2.2.2
 
 theorem acceptableA_congr {s t : State} {id : Id} {v : ValsA} (ha : ∀ j, t.a.lookup j = s.a.lookup j)
     (hb : ∀ j, t.b.lookup j = s.b.lookup j) : AcceptableA t id v ↔ AcceptableA s id v := by
-  unfold AcceptableA HeldByOther State.bEx
+  unfold AcceptableA HeldByOther State.bEx State.aEx
   simp only [ha, hb]
 
 end StorageModel.C06
